@@ -265,7 +265,10 @@ where
     fn flush_batch(&mut self) -> Result<()> {
         if let Some(batch) = self.batch.as_ref() {
             if !batch.is_empty() {
+                #[cfg(not(selium_verif))]
                 self.send_batch(Instant::now())?;
+                #[cfg(selium_verif)]
+                self.send_batch(crate::verif::now())?;
             }
         }
 
@@ -282,7 +285,10 @@ where
 
     fn poll_ready(mut self: Pin<&mut Self>, cx: &mut Context<'_>) -> Poll<Result<(), Self::Error>> {
         if let Some(batch) = self.batch.as_ref() {
+            #[cfg(not(selium_verif))]
             let now = Instant::now();
+            #[cfg(selium_verif)]
+            let now = crate::verif::now();
 
             if batch.is_ready(now) {
                 self.send_batch(now)?;
